@@ -46,6 +46,7 @@ Tpl(name) ==
       [] name = "MnC" -> <<PMsg, PNl, PPos, Lit(<<47>>), PLen>>
       [] name = "LM"  -> <<Lit(<<97, 98>>), PMsg>>
       [] name = "TM"  -> <<Lit(<<97, TAB, 98>>), PMsg>>
+      [] name = "TB"  -> <<PMsg, Lit(<<TAB, 123, 32, 122, TAB, 125>>)>>      \* {msg}<TAB>{ z<TAB>}: an opening brace followed by a blank stands for itself
       [] name = "C"   -> <<PPos, Lit(<<47>>), PLen>>
       [] name = "MC"  -> <<PMsg, PPos>>
       [] name = "KM"  -> <<PKey, PMsg>>
